@@ -26,4 +26,122 @@ example : ∃ t l, leavesWf t = true ∧ layoutOf t = some l ∧ l = { size := 2
   ⟨.record (.cons (.leaf .int 1 1) (.cons (.enum (.cons (.cons (.leaf .int 8 8) .nil) (.cons .nil .nil))) .nil)),
    _, by decide, rfl, by decide⟩
 
+/-- one component placed by a field loop: it has a layout, starts at or after
+    `lo`, ends at or before `hi`, and its offset is a multiple of its alignment -/
+def ComponentOk (lo hi : Nat) (v : Visit) : Prop :=
+  ∃ l, layoutOf v.2.2 = some l ∧ lo ≤ v.2.1 ∧ v.2.1 + l.size ≤ hi ∧ (0 < l.align → v.2.1 % l.align = 0)
+
+/-- two components in field order do not overlap -/
+def InOrder (a b : Visit) : Prop := ∀ la, layoutOf a.2.2 = some la → a.2.1 + la.size ≤ b.2.1
+
+/-- **T2 `fields_disjoint` (records)** — in every inhabited record, for every
+    field mixture (no hypothesis on the leaves for disjointness and bounds;
+    alignment holds for every field whose alignment is positive, i.e. always
+    under `layout_wf`): `layout_of` places all fields, each inside
+    `[0, size)`, each at a multiple of its alignment, pairwise disjoint. -/
+theorem fields_disjoint_record (fs : Tys) (L : Layout) (h : layoutOf (.record fs) = some L) :
+    ∃ vs, placement fs 0 LayoutBuilder.new = some vs ∧ vs.length = fs.length ∧
+      (∀ v ∈ vs, ComponentOk 0 L.size v) ∧ vs.Pairwise InOrder := by
+  cases hb : buildFields fs LayoutBuilder.new with
+  | none => simp [layoutOf, hb] at h
+  | some b =>
+    simp [layoutOf, hb] at h; subst h
+    obtain ⟨vs, hvs⟩ := buildFields_placement fs 0 _ b hb
+    obtain ⟨b', hb', hp, hlen⟩ := placement_placed fs 0 _ vs hvs
+    rw [hb] at hb'; cases hb'
+    have hp' : Placed 0 vs b.finish.size := placed_mono hp (Nat.zero_le _) (finish_size_ge b)
+    obtain ⟨h1, h2⟩ := placed_explicit hp'
+    exact ⟨vs, hvs, hlen, h1, h2⟩
+
+/-- **T2 `fields_disjoint` (enums)** — in every enum, every inhabited variant's
+    fields lie after the `u8` tag at offset 0 (`1 ≤ offset`), inside
+    `[0, size)` of the whole enum, aligned, pairwise disjoint. -/
+theorem fields_disjoint_variant (vs : Vars) (L : Layout) (h : layoutOf (.enum vs) = some L)
+    (k : Nat) (fields : Tys) (hk : vs.get? k = some fields) (ls : List (Ty × Layout))
+    (hinh : collectLayouts fields = some ls) :
+    ∃ ps, placement fields 0 variantStart = some ps ∧ ps.length = fields.length ∧
+      (∀ v ∈ ps, ComponentOk 1 L.size v) ∧ ps.Pairwise InOrder := by
+  obtain ⟨ps, hps⟩ := collectLayouts_placement fields 0 variantStart ls hinh
+  obtain ⟨b', hb', hp, hlen⟩ := placement_placed fields 0 _ ps hps
+  have hge := (enumLayout_ge vs none L (by simpa [layoutOf] using h)).2 k fields b' hk hb'
+  have hp' : Placed 1 ps L.size :=
+    placed_mono hp (by rw [variantStart_eq]; exact Nat.le_refl _) (Nat.le_trans (finish_size_ge b') hge)
+  obtain ⟨h1, h2⟩ := placed_explicit hp'
+  exact ⟨ps, hps, hlen, h1, h2⟩
+
+example : ∃ vs, placement (.cons (.leaf .int 1 1) (.cons (.leaf .int 8 8) (.cons .unit (.cons (.leaf .int 2 2) .nil))))
+    0 LayoutBuilder.new = some vs ∧ vs.map (·.2.1) = [0, 8, 16, 16] := ⟨_, rfl, by decide⟩
+
+/-- **T3 `offsets_agree` (records)** — whenever `Lowerer::get_field` computes
+    an offset for field `n` (which it does exactly when fields `0..n` are
+    inhabited), the generated clone function and the generated eq function
+    touch field `n` at that very offset, the generated drop function does if
+    the field needs dropping, and so does `layout_of`'s own placement whenever
+    the record has a layout — for ALL field lists, including zero-sized and
+    uninhabited fields (where `clone`/`eq`/`drop` `continue` before `add`,
+    `get_field` unwraps and `layout_of` gives up). -/
+theorem offsets_agree_record (fs : Tys) (n off : Nat) (t : Ty)
+    (h : getField fs n LayoutBuilder.new = .ok (off, t)) :
+    (n, off, t) ∈ cloneRecordVisits fs ∧ (n, off, t) ∈ eqRecordVisits fs ∧
+    (needsDrop t = true → (n, off, t) ∈ dropRecordVisits fs) ∧
+    (∀ vs, placement fs 0 LayoutBuilder.new = some vs → (n, off, t) ∈ vs) := by
+  refine ⟨?_, ?_, ?_, ?_⟩
+  · simpa [cloneRecordVisits] using getField_mem_clone fs n 0 _ off t h
+  · simpa [eqRecordVisits] using getField_mem_eq fs n 0 _ off t h
+  · intro hd; simpa [dropRecordVisits] using getField_mem_drop fs n 0 _ off t h hd
+  · intro vs hvs; simpa using getField_mem_placement fs n 0 _ off t vs h hvs
+
+/-- **T3 (records, inhabited)** — on a record that has a layout the four
+    computations coincide completely: `get_field` succeeds for every field
+    index, and clone, eq and (filtered by `needs_drop`) drop visit exactly the
+    list of `(index, offset, type)` `layout_of` placed. -/
+theorem offsets_agree_record_total (fs : Tys) (L : Layout) (h : layoutOf (.record fs) = some L) :
+    ∃ vs, placement fs 0 LayoutBuilder.new = some vs ∧
+      cloneRecordVisits fs = vs ∧ eqRecordVisits fs = vs ∧
+      dropRecordVisits fs = vs.filter (fun v => needsDrop v.2.2) ∧
+      ∀ n, n < fs.length → ∃ off t, getField fs n LayoutBuilder.new = .ok (off, t) ∧
+        fs.get? n = some t ∧ (n, off, t) ∈ vs := by
+  obtain ⟨vs, hvs, _, _, _⟩ := fields_disjoint_record fs L h
+  obtain ⟨h1, h2, h3⟩ := placement_loops fs 0 _ vs hvs
+  refine ⟨vs, hvs, h1, h2, h3, ?_⟩
+  intro n hn
+  obtain ⟨off, t, a, b, c⟩ := getField_total fs n 0 _ vs hvs hn
+  exact ⟨off, t, a, b, by simpa using c⟩
+
+/-- **T3 `offsets_agree` (enum variants)** — for every inhabited variant, the
+    `VariantField` loop of `Lowerer::location` finds every field at the offset
+    `layout_of` placed it, and the per-variant loops of the generated clone,
+    drop and eq functions visit exactly that placement. -/
+theorem offsets_agree_variant (vs : Vars) (k : Nat) (fields : Tys) (hk : vs.get? k = some fields)
+    (ls : List (Ty × Layout)) (hinh : collectLayouts fields = some ls) :
+    ∃ ps, placement fields 0 variantStart = some ps ∧
+      cloneVariantVisits fields = ps ∧ dropVariantVisits fields = ps ∧ eqVariantVisits fields = ps ∧
+      ∀ n, n < fields.length → ∃ off t, variantField vs k n = .ok (some (off, t)) ∧
+        fields.get? n = some t ∧ (n, off, t) ∈ ps := by
+  obtain ⟨ps, hps⟩ := collectLayouts_placement fields 0 variantStart ls hinh
+  obtain ⟨ls', h0, h1, h2, h3⟩ := placement_variant_loops fields 0 _ ps hps
+  refine ⟨ps, hps, by simp [cloneVariantVisits, h0, h1], by simp [dropVariantVisits, h0, h2],
+    by simp [eqVariantVisits, h0, h3], ?_⟩
+  intro n hn
+  obtain ⟨off, t, a, b, c⟩ := getField_total fields n 0 _ ps hps hn
+  refine ⟨off, t, ?_, b, by simpa using c⟩
+  simp [variantField, hk, variantFieldLoop_of_getField fields n _ none (off, t) a]
+
+/-- **T3 (uninhabited variants)** — a variant with an uninhabited field is
+    skipped by all three generated functions and by `layout_of`. -/
+theorem uninhabited_variant_skipped (fields : Tys) (h : collectLayouts fields = none) :
+    cloneVariantVisits fields = [] ∧ dropVariantVisits fields = [] ∧ eqVariantVisits fields = [] ∧
+    buildFields fields variantStart = none := by
+  simp [cloneVariantVisits, dropVariantVisits, eqVariantVisits, h,
+    (collectLayouts_none_placement fields 0 variantStart h).2]
+
+/-- non-vacuity: `get_field` does compute offsets (here behind a zero-sized
+    field), and with an uninhabited field in front the loops really differ:
+    `get_field` panics, clone / eq skip the field and continue at offset 0 -/
+example : getField (.cons .unit (.cons (.leaf .int 4 4) .nil)) 1 LayoutBuilder.new = .ok (0, .leaf .int 4 4) := rfl
+example : getField (.cons .never (.cons (.leaf .int 4 4) .nil)) 1 LayoutBuilder.new = .panic ∧
+    cloneRecordVisits (.cons .never (.cons (.leaf .int 4 4) .nil)) = [(1, 0, .leaf .int 4 4)] := ⟨rfl, rfl⟩
+example : variantField (.cons (.cons (.leaf .int 1 1) (.cons (.leaf .int 8 8) .nil)) .nil) 0 1
+    = .ok (some (8, .leaf .int 8 8)) := rfl
+
 end RotoV.C02
